@@ -71,6 +71,17 @@ Theorem C03_refuted_time_saturation :
   Encode true STime (VTime (-9223372036854775808)) = Ok [0; 0; 0; 0; 0; 0; 0; 0].
 Proof. exact refuted_time_saturation. Qed.
 
+(* The answer to a call on one API does not depend on the calls made before it (the model of a session is the map of a
+   pure function over the history). This is what the correspondence holds the code to when it replays call histories on
+   one serix.API whose types share settings objects: a library that rewrites a registered *ArrayRules in place (seed
+   C03-m6: ensureOrdering) answers the same Decode / re-Encode differently after an unrelated map call. *)
+Theorem C03_history_independent : forall h1 h2 c d,
+  last (run_history (h1 ++ [c])) d = last (run_history (h2 ++ [c])) d.
+Proof. exact history_independent. Qed.
+
+Theorem C03_history_pointwise : forall h n c d, nth_error h n = Some c -> nth n (run_history h) d = run_call c.
+Proof. exact history_pointwise. Qed.
+
 Example C03_canonical_nonvacuous :
   wfc exc_schema /\
   exists b v, wfb b /\ Decode true exc_schema b = Ok (v, length b) /\ times_ok exc_schema v /\
@@ -106,3 +117,5 @@ Print Assumptions C03_injective.
 Print Assumptions C03_refuted_time_saturation.
 Print Assumptions C03_canonical_nonvacuous.
 Print Assumptions C03_noncanonical_rejected.
+Print Assumptions C03_history_independent.
+Print Assumptions C03_history_pointwise.
